@@ -106,6 +106,11 @@ Definition bitstr_of_nibs (p : list nat) : list byte :=
   | _ => pack0 p ++ [if Nat.even (length p) then xff else xf0]
   end.
 
+(* the bitstr of the nibbles [even_down from, to) of a key: what setPrefix stores
+   for prefixBitFrom = 4*from, prefixBitTo = 4*to (ScanBytesProofs.bitstr_new_nibs) *)
+Definition key_prefix_bitstr (k : key) (from to : nat) : list byte :=
+  bitstr_of_nibs (firstn (to - even_down from) (skipn (even_down from) (nibs k))).
+
 (* the abstraction: the first n nibbles of a byte buffer *)
 Definition unpack_n (n : nat) (buf : list byte) : list nat := firstn n (nibs buf).
 
